@@ -26,7 +26,7 @@ ASSUMPTIONS = ["pulse samples carry the amplitude plus a small share of the nois
                "R1 = noise peak below the demodulator's own end-of-frame threshold (0.2 x strongest pulse of the frame)"]
 REQUIRED = ["r1_buffers", "r2_buffers", "second_buffer", "second_buffer_short_tail", "min_gap_after_short", "min_gap_after_long", "df17", "df20", "df21", "df4", "df5", "df11", "offset_even", "offset_odd",
             "corrupted_df17_rejected", "weakest_pulse_exactly_10dB_above_floor", "pure_noise", "multi_frame", "same_frame_twice_in_a_row", "second_reader_alive", "reader_in_debug_mode", "sessions", "session_buffer_11_or_later", "big_busy_first_buffer", "buffer_longer_than_nominal_size",
-            "iq_reads_through_read_callback", "strong_frames_over_a_floor_above_0.316"]
+            "iq_reads_through_read_callback", "noise_floor_exactly_zero", "strong_frames_over_a_floor_above_0.316"]
 
 
 def reader():
@@ -66,6 +66,11 @@ def build(rng, case):
             buf.append(noise_sample(rng, fam, L, P))
 
     noise(case["lead"])
+    if case.get("zero_block"):
+        # a zero-filled stretch (a dropped USB transfer, a muted front end): two whole 100 us windows of exact zeros - the running
+        # noise floor becomes 0, which is a floor like any other ("at least 10 dB above" it holds for every pulse)
+        for j_ in range(min(400, len(buf))):
+            buf[j_] = 0.0
     for fr in case["frames"]:
         x = int(fr["hex"], 16)
         n = len(fr["hex"]) * 4
@@ -88,6 +93,17 @@ def build(rng, case):
         noise(fr["gap"])
     noise(case["tail"])
     return buf, exp, frames_info
+
+
+KNOWN_GATE_AT_ZERO = "frames-lost-or-spurious-after-noise-matched-the-preamble-template-with-the-gate-at-zero"
+
+
+def gate_at_zero_and_noise_reaches_template(case):
+    """the mechanism of the known finding: a zero-filled stretch pins the reader's running-minimum floor (and so its amplitude gate)
+    to 0 while the noise elsewhere reaches 0.2 - the level at which a sample satisfies a "pulse" position of the preamble template
+    (tolerance 0.8): noise alone then passes as a preamble, and the rejected candidate still advances the scan by up to 240
+    samples.  Decidable from the case alone, before anything is run."""
+    return bool(case.get("zero_block")) and case["P"] >= 0.2
 
 
 def m_buffer(ctx, case):
@@ -129,6 +145,8 @@ def m_buffer(ctx, case):
             info = info + [dict(f, start=f["start"] + len(buf)) for f in info2]
     regime = case["regime"]
     ctx.hit("r1_buffers" if regime == "R1" else "r2_buffers" if regime == "R2" else "pure_noise")
+    if case.get("zero_floor") or case.get("zero_block"):
+        ctx.hit("noise_floor_exactly_zero")
     short = {"fam": case["fam"], "L": case["L"], "P": case["P"], "bseed": case["bseed"], "regime": regime,
              "frames": [(f["start"], f["n"], f["amp"], f["hex"], f["valid"]) for f in info]}
     if res[0] != "ok":
@@ -164,6 +182,8 @@ def m_buffer(ctx, case):
         key = "frame-lost" if missing and not extra else "frame-corrupted-or-spurious" if extra else "frames-reordered-or-duplicated"
         if regime == "R2":
             key += "-at-10-to-14dB-snr"     # the regime of the former finding eof-threshold-below-noise (fixed in b07124f)
+        if gate_at_zero_and_noise_reaches_template(case):
+            key = KNOWN_GATE_AT_ZERO
         ctx.violation(key, expected=exp, observed=got, **short)
         return
     for f in info:
@@ -323,7 +343,8 @@ def m_callback(ctx, case):
         missing = [e for e in exp if e not in got]
         extra = [g for g in got if g not in exp]
         key = "frame-lost" if missing and not extra else "frame-corrupted-or-spurious" if extra else "frames-reordered-or-duplicated"
-        ctx.violation(key + "-through-read_callback", expected=exp, observed=got, **short)
+        ctx.violation(KNOWN_GATE_AT_ZERO if gate_at_zero_and_noise_reaches_template(case) else key + "-through-read_callback",
+                      expected=exp, observed=got, **short)
         return
     ctx.hit("iq_reads_through_read_callback")
     if exp and min(f["amp"] for f in info if f["valid"]) > 1.0 and L > 0.3163:
@@ -390,6 +411,14 @@ def mkcase(rng, regime, nframes=None, force_df=None, strong=False):
             frames.append(dict(fr_, amp=rng.choice((amps[k], rng.uniform(amin, 1.4))), gap=rng.choice((own, own + 2, 240, 400, rng.randint(own, 700)))))
     c = {"fam": fam, "L": L, "P": P, "lead": rng.choice((200, 201, 333, 400, rng.randint(200, 700))), "tail": 600 + rng.randrange(0, 300),
          "frames": frames, "regime": regime, "bseed": rng.getrandbits(40)}
+    if regime == "R1" and not strong:
+        u_ = rng.random()
+        if u_ < 0.06:
+            c["fam"], c["L"], c["P"] = "const", 0.0, 0.0        # a noise-free background (a signal generator, a simulation): floor exactly 0
+            c["zero_floor"] = True
+        elif u_ < 0.12:
+            c["zero_block"] = True
+            c["lead"] = rng.choice((450, 451, 600))
     if regime == "R2" and exact:
         c["pure"] = True     # pulse samples carry the amplitude alone (no share of the noise on top)
     if frames and rng.random() < 0.25:
@@ -422,6 +451,13 @@ def cases(ctx):
             if ctx.mine(i):
                 yield "buffer", c
             i += 1
+    if ctx.shard == 0:
+        # the recorded witness of the known finding (KNOWN_FINDINGS.txt): flat noise at 0.256, two 100 us windows of zeros at the
+        # start of the buffer, the same long reply twice at amplitude 1.4 (14.7 dB above the noise) 225 samples apart
+        yield "buffer", {"fam": "const", "L": 0.2558601249236899, "P": 0.2558601249236899, "lead": 450, "tail": 802, "regime": "R1",
+                         "bseed": 132789519310, "zero_block": True,
+                         "frames": [{"hex": "A373906FDFD0A56698223F513557", "amp": 1.4, "gap": 225, "valid": True},
+                                    {"hex": "A373906FDFD0A56698223F513557", "amp": 1.4, "gap": 224, "valid": True}]}
     for k in range(ctx.share(3000 if quick else 100000)):
         yield "buffer", mkcase(rng, "R1")
     for k in range(ctx.share(300 if quick else 6000)):
